@@ -382,7 +382,18 @@ class Program:
         return self.functions[q]
 
     def method(self, cls: Cls, name: str) -> Func:
-        """own method of ``cls`` (anchor)"""
+        """own method of ``cls`` (anchor), read with the class's private helpers inlined (sa/inline.py): "extract method" is
+        the commonest refactoring, and a rule that reads statements should see the statements wherever they were put.  The view
+        is the method itself when there is nothing to inline.  ``method_raw`` gives the function as written."""
+        if name not in cls.methods:
+            raise AnalysisError(f"anchor method {cls.short}.{name} not found")
+        from .inline import inline_view
+        try:
+            return inline_view(self, cls, cls.methods[name])
+        except RecursionError:
+            return cls.methods[name]
+
+    def method_raw(self, cls: Cls, name: str) -> Func:
         if name not in cls.methods:
             raise AnalysisError(f"anchor method {cls.short}.{name} not found")
         return cls.methods[name]
@@ -390,7 +401,7 @@ class Program:
     def method_view(self, cls: Cls, name: str) -> Func:
         """own method of ``cls`` with the class's private helpers inlined (see sa/inline.py): what the statement-level rules read"""
         from .inline import inline_view
-        return inline_view(self, cls, self.method(cls, name))
+        return inline_view(self, cls, self.method_raw(cls, name))
 
     def func_view(self, short: str, module: str) -> Func:
         """module-level function with the module's private helper functions inlined"""
